@@ -116,7 +116,40 @@ func reference3(pred string, a []*rt.Term) (ans [][]*rt.Term, ok bool, errOK boo
 		}
 	}
 	ans, ok = reference2(pred, a)
+	if ok {
+		ans, ok = aliasFilter(a, ans)
+	}
 	return ans, ok, false
+}
+
+// aliasFilter: when one variable stands at two argument positions of the call, only the tuples whose values at those
+// positions are equal are answers. (If such a value is not ground the comparison would need unification: outside.)
+func aliasFilter(a []*rt.Term, ans [][]*rt.Term) ([][]*rt.Term, bool) {
+	var pairs [][2]int
+	for i := range a {
+		for j := i + 1; j < len(a); j++ {
+			if isVar(a[i]) && isVar(a[j]) && a[i].I == a[j].I {
+				pairs = append(pairs, [2]int{i, j})
+			}
+		}
+	}
+	if len(pairs) == 0 {
+		return ans, true
+	}
+	var out [][]*rt.Term
+	for _, t := range ans {
+		keep := true
+		for _, p := range pairs {
+			if len(t[p[0]].Vars(nil)) > 0 || len(t[p[1]].Vars(nil)) > 0 {
+				return nil, false
+			}
+			keep = keep && rt.Equal(t[p[0]], t[p[1]])
+		}
+		if keep {
+			out = append(out, t)
+		}
+	}
+	return out, true
 }
 
 func reference2(pred string, a []*rt.Term) (ans [][]*rt.Term, ok bool) {
@@ -943,6 +976,17 @@ func maskCase(t *rapid.T, pred string, tp []*rt.Term) Case {
 			}
 		}
 		if !extra {
+			c.More = nil
+		}
+		// one variable at two argument positions (nth0(N, [0,5,2,7], N))
+		var free []int
+		for k := range c.Args {
+			if isVar(c.Args[k]) {
+				free = append(free, k)
+			}
+		}
+		if len(free) >= 2 && u(t, 8, "alias") == 7 {
+			c.Args[free[1]] = c.Args[free[0]]
 			c.More = nil
 		}
 		return c
